@@ -1,6 +1,7 @@
 """C17 — `lexical` equals `lexical-core`, output is ASCII (DESIGN §4)."""
 from rules import api as A
 from rules import opts as O
+from rules import extra as X
 from rules.core import guarded
 
 INFO = {
@@ -16,6 +17,7 @@ def run(col, configs, tier):
         guarded(col, A.rule_delegation, facts)
         guarded(col, A.rule_to_string, facts)
         guarded(col, A.rule_ascii_origin, facts)
+        guarded(col, X.rule_byte_predicates, facts)
         for crate in ("lexical_write_float", "lexical_parse_float"):
             guarded(col, O.rule_options_builder, facts, crate)
             guarded(col, O.rule_options_is_valid, facts, crate)
